@@ -499,7 +499,7 @@ func runC07(c *engine.Ctx) {
 				"the middleware is built from the configured web-server user and password")
 		})
 	}
-	c.Floor(n, 20)
+	c.Floor(n, 10)
 
 	// ---- R7 ----
 	c.Rule("R7", "http_proxy plugin: every dial / round trip is behind Auth()==true (in the function itself or at every call site of it); Auth returns true only without configured credential or with both constant-time equalities; socks5 sets credentials whenever one part is configured; static_file installs the middleware")
@@ -689,7 +689,7 @@ func runC07(c *engine.Ctx) {
 		})
 		c.Check(use && useIdx < serveIdx, "pkg/plugin/client.NewStaticFilePlugin", f.Pos(), 2, nil, "the file handler is registered on a router that already uses the middleware built from HTTPUser/HTTPPassword")
 	}
-	c.Floor(n, 6)
+	c.Floor(n, 3)
 
 	// ---- R8 ----
 	checkCredentialPlumbing(c, "R8")
@@ -835,7 +835,7 @@ func checkCredentialPlumbing(c *engine.Ctx, rule string) {
 			}
 		})
 	}
-	c.Floor(n, 6)
+	c.Floor(n, 3)
 }
 
 // funcValueOf resolves a function-typed value to the source function it denotes: a function, a closure, or a bound
